@@ -42,6 +42,7 @@ func (t *T0x0704) Parse(jtMsg *jt808.JTMessage) error {
 	t.Num = binary.BigEndian.Uint16(body[:2])
 	t.LocationType = body[2]
 	start := 3
+	t.Items = nil // 复用时不保留上一次解析的数据项
 	for i := 0; i < int(t.Num); i++ {
 		var item T0x0704LocationItem
 		if start+2 > len(body) { // 数据项个数比实际的多
